@@ -166,7 +166,9 @@ de_harness! {
                         std::assert!(v <= room, "vector longer than the remaining input accepted");
                         std::assert!(*n as u128 == v && pos == end + 2 * *n, "element count / consumption differ from the length prefix");
                     }
-                    Err(_) => std::assert!(v > room, "vector that fits the input rejected"),
+                    // completeness only for prefixes the decoder's 63-bit length reader is documented to
+                    // take (terminator within 9 bytes): rejecting a longer padded prefix is not forbidden
+                    Err(_) => std::assert!(v > room || end > 9, "vector that fits the input rejected"),
                 }
             }
             _ => std::assert!(r.is_err(), "unterminated / oversized length prefix accepted"),
